@@ -86,10 +86,26 @@ partial def duplicateGlob (body : Body) : Bool :=
       | .field _ _ _ (.map b) => duplicateGlob b
       | _ => false
 
+/-- two globs that assign a label (primary value) -/
+def labelGlobs (body : Body) : Bool :=
+  ((allStmts body).filter fun s => match s with
+    | .field _ [k] _ (.scal _) => segHasGlob k
+    | _ => false).length ≥ 2
+
+/-- two connection-index globs that set the same attribute (their order of application on a connection created by a
+    third glob depends on the nesting of the re-application passes) -/
+def indexGlobOverlap (body : Body) : Bool :=
+  let ks := (allStmts body).filterMap fun s => match s with
+    | .edge _ a _ d (some _) ek _ _ => if keyHasGlob a || keyHasGlob d then some (renderKey ek) else none
+    | _ => none
+  ks.zipIdx.any fun (a, i) => ks.zipIdx.any fun (b, j) => i < j && a == b
+
 def classOf (body : Body) : String :=
   if matchDiffers body then ":match-differs" else if hasNull body then ":redeclared-after-null"
   else if duplicateGlob body then ":duplicate-glob"
-  else if mapGlobOverlap body then ":map-glob-overlap" else ""
+  else if labelGlobs body then ":label-glob-order"
+  else if mapGlobOverlap body then ":map-glob-overlap"
+  else if indexGlobOverlap body then ":index-glob-overlap" else ""
 
 /-! one-block attribute-glob programs: the operational model `GlobSem.run` against the compiled graph -/
 
